@@ -348,7 +348,15 @@ func symConv(ut_dst, ut_src types.Type, x value) (value, bool) {
 // runeToString encodes a symbolic rune as UTF-8, forking on the length class.
 func (i *interpreter) runeToString(r *Sym) value {
 	c := i.ctx
-	t := c.Resize(r.T, 32, true)
+	_, rsigned, _ := kindInfo(r.K)
+	t := c.Resize(r.T, 32, rsigned)
+	if r.T.W > 32 {
+		// string(int64) with a value outside int32 is "\uFFFD"
+		w := r.T.W
+		if i.branch(c.Not(c.Eq(c.Resize(t, w, true), r.T))) {
+			return "\uFFFD"
+		}
+	}
 	k := func(v uint64) *sym.Term { return c.BV(v, 32) }
 	b8 := func(x *sym.Term) value { return mkSym(c.Extract(7, 0, x), types.Uint8) }
 	or := func(x *sym.Term, v uint64) *sym.Term { return c.Bin(sym.OpBOr, x, k(v)) }
@@ -448,6 +456,7 @@ func (w *Worker) runPath(fn *ssa.Function, it workItem, fuel int64, exp *Explore
 	i.path = p
 	i.exp = exp
 	i.fuel = fuel
+	i.softFuelAt = -1
 	i.depth = 0
 	i.panicSite = ""
 	if i.sched != nil {
@@ -459,6 +468,14 @@ func (w *Worker) runPath(fn *ssa.Function, it workItem, fuel int64, exp *Explore
 			switch a := r.(type) {
 			case abort:
 				res = PathResult{Kind: a.kind, Msg: a.msg}
+				if a.kind == "fuel" && i.fuelIsViolation {
+					site := strings.TrimPrefix(a.msg, "instruction budget exhausted in ")
+					func() {
+						defer func() { recover() }()
+						i.fuelViolation(a.msg, site)
+					}()
+					res.Kind = "fuel-violation"
+				}
 			default:
 				// a Go panic escaped the harness entry point
 				msg := describePanic(r)
@@ -631,6 +648,10 @@ func mergeStats(dst, src *Stats) {
 func ptrInt(p *value) uintptr { return uintptr(unsafe.Pointer(p)) }
 
 func (w *Worker) SetParams(p map[string]int) { w.i.params = p }
+
+// FuelIsViolation: exhausting the instruction budget is reported as a
+// non-termination candidate (replayed natively under a watchdog) instead of inconclusive.
+func (w *Worker) FuelIsViolation(b bool) { w.i.fuelIsViolation = b }
 
 // EnableScheduler switches on the bounded thread scheduler for this worker.
 func (w *Worker) EnableScheduler(maxPreempt int) {
